@@ -877,6 +877,84 @@ fn c03_pkt_packet_any_bytes() {
     p_packet::<40>();
 }
 
+/// C03 be_packet per packet kind: the type-determining prefix (first byte; for long headers also the
+/// version) is CONCRETE, everything after it and the datagram length are symbolic. be_packet looks at
+/// the prefix only through be_packet_type, whose verdict for every first byte / version is
+/// c03_pkt_type_any_bytes; with a concrete prefix CBMC follows one header kind instead of six
+/// (the fully symbolic c03_pkt_packet_any_bytes is 1.2 M SSA steps: thorough tier).
+/// `low` = the bits of the first byte be_packet_type ignores (protected bits; for VN all 7 low bits).
+fn p_packet_kind<const N: usize>(first: u8, version: Option<u32>) {
+    let (mut arr, len) = any_input::<N>();
+    arr[0] = first;
+    let plen = match version {
+        Some(v) => {
+            arr[1] = (v >> 24) as u8;
+            arr[2] = (v >> 16) as u8;
+            arr[3] = (v >> 8) as u8;
+            arr[4] = v as u8;
+            5
+        }
+        None => 1,
+    };
+    kani::assume(len >= plen);
+    let dcid_len: usize = kani::any();
+    kani::assume(dcid_len <= MAX_CID_SIZE);
+    let reference = ref_packet(&arr, len, dcid_len);
+    kani::assume(reference != RefPkt::CidTooLarge);
+    packet_case(&arr, len, dcid_len, reference);
+}
+
+#[kani::proof]
+#[kani::stub(core::slice::index::slice_index_fail, stub_slice_index_fail)]
+#[kani::stub(core::fmt::write, stub_fmt_write)]
+#[kani::stub(crate::varint::be_varint, model_be_varint)]
+#[kani::unwind(6)]
+fn c03_pkt_packet_initial() {
+    p_packet_kind::<40>(0xc0, Some(1));
+}
+
+#[kani::proof]
+#[kani::stub(core::slice::index::slice_index_fail, stub_slice_index_fail)]
+#[kani::stub(core::fmt::write, stub_fmt_write)]
+#[kani::stub(crate::varint::be_varint, model_be_varint)]
+#[kani::unwind(6)]
+fn c03_pkt_packet_zero_rtt() {
+    p_packet_kind::<40>(0xd0, Some(1));
+}
+
+#[kani::proof]
+#[kani::stub(core::slice::index::slice_index_fail, stub_slice_index_fail)]
+#[kani::stub(core::fmt::write, stub_fmt_write)]
+#[kani::stub(crate::varint::be_varint, model_be_varint)]
+#[kani::unwind(6)]
+fn c03_pkt_packet_handshake() {
+    p_packet_kind::<40>(0xe0, Some(1));
+}
+
+#[kani::proof]
+#[kani::stub(core::slice::index::slice_index_fail, stub_slice_index_fail)]
+#[kani::stub(core::fmt::write, stub_fmt_write)]
+#[kani::unwind(6)]
+fn c03_pkt_packet_one_rtt() {
+    p_packet_kind::<44>(if kani::any() { 0x40 } else { 0x60 }, None);
+}
+
+#[kani::proof]
+#[kani::stub(core::slice::index::slice_index_fail, stub_slice_index_fail)]
+#[kani::stub(core::fmt::write, stub_fmt_write)]
+#[kani::unwind(6)]
+fn c03_pkt_packet_retry() {
+    p_packet_kind::<28>(0xf0, Some(1));
+}
+
+#[kani::proof]
+#[kani::stub(core::slice::index::slice_index_fail, stub_slice_index_fail)]
+#[kani::stub(core::fmt::write, stub_fmt_write)]
+#[kani::unwind(6)]
+fn c03_pkt_packet_vn() {
+    p_packet_kind::<20>(0x80, Some(0));
+}
+
 /// thorough: real be_varint
 #[kani::proof]
 #[kani::stub(core::slice::index::slice_index_fail, stub_slice_index_fail)]
